@@ -316,6 +316,10 @@ def run(ctx, res):
         if not bad:
             res.ok("LAST", "%s: nothing is appended to `responses` after the `done` message" % h)
 
+    # ---- WORKER-LOOP (shared with C09): a request that was accepted into the session's queue is answered -- the worker leaves
+    # its loop only when the channel is closed
+    from . import c09 as _c09
+    _c09.worker_loop_exits(P, res, "nrepl::session_worker")
     # ---- IN-ORDER / ISOLATION ----------------------------------------------------------------
     sw = P.require_fn("nrepl::session_worker")
     recvs = [bi for bi, t in sw.calls() if (M.callee_name(t) or "").endswith("Receiver::<T>::recv")
